@@ -1072,3 +1072,31 @@ CASES += [
 CASES += [
  dict(id='mut-clique-counting-list-joined-by-blanks', kind='fire', file=C, old='vertices.iter().cloned().collect::<Vec<String>>().join(", "),', new='vertices.iter().cloned().collect::<Vec<String>>().join(" "),', expect={'C16': 'list separator'}, control=False),
 ]
+
+# eleventh round of behaviour-preserving patches (bn41 the generators, bn42 the CLI program, bn43 the front end, bn44 the evaluator with the
+# operations it calls): six patches each; DESIGN.md 15.9
+_BN11 = {41: ['C15', 'C16', 'C17', 'C18'], 42: ['C07', 'C09', 'C10', 'C11', 'C12', 'C14', 'C20'], 43: ['C01', 'C03', 'C04', 'C05', 'C06', 'C08', 'C09', 'C11'],
+         44: ['C01', 'C02', 'C03', 'C04', 'C05', 'C06', 'C07', 'C13', 'C19']}
+_BN11_FILE = {41: G, 42: M, 43: P, 44: B}
+_BN11_KNOWN = {
+}
+import os as _os
+for _k, _checks in _BN11.items():
+    for _n in range(1, 7):
+        _id = 'bn%d-%02d' % (_k, _n)
+        if not _os.path.exists(_os.path.join(_os.path.dirname(_os.path.abspath(__file__)), 'patches', _id + '.diff')): continue
+        _file = {'bn41-01': Q, 'bn41-02': C, 'bn41-03': U, 'bn41-04': U, 'bn44-04': S, 'bn44-05': P, 'bn44-06': P}.get(_id, _BN11_FILE[_k])
+        if _id in _BN11_KNOWN: CASES.append(dict(id=_id, kind='known-alarm', file=_file, patch=_id + '.diff', checks=_checks, control=False, why=_BN11_KNOWN[_id]))
+        else: CASES.append(dict(id=_id, kind='silent', file=_file, patch=_id + '.diff', checks=_checks, control=False))
+
+CASES += [
+ # every generalisation of round 11 with a twin that must fire
+ dict(id='sudoku-retain-under-a-condition', kind='fire', file=U, patch='bn41-04.diff', old='    puzzle_input.retain(|c| !c.is_whitespace());', new='    if root > 3 { puzzle_input.retain(|c| !c.is_whitespace()); }', expect={'C17': 'whitespace'}, control=False),
+ dict(id='sudoku-retain-keeps-the-blanks', kind='fire', file=U, patch='bn41-04.diff', old='    puzzle_input.retain(|c| !c.is_whitespace());', new='    puzzle_input.retain(|c| c.is_whitespace());', expect={'C17': 'whitespace'}, control=False),
+ dict(id='table-row-shown-flag-wrong-leaf', kind='fire', file=M, patch='bn42-04.diff', old='                TruthTableEntry::True => *leaf == BDD::True,', new='                TruthTableEntry::True => *leaf == BDD::False,', expect={'C10': 'filter=True'}, control=False),
+ dict(id='report-flag-without-sample-guard', kind='fire', file=M, patch='bn42-01.diff', old='    if benchmarking && repeat > 0 {', new='    if benchmarking {', expect={'C12': 'stats'}, control=False),
+ dict(id='queens-reversed-lengths-drop-a-diagonal', kind='fire', file=Q, patch='bn41-01.diff', old='    for length in (1..n).rev() {', new='    for length in (1..n - 1).rev() {', expect={'C15': 'violation'}, control=False),
+ dict(id='count-bound-match-falls-back-to-zero', kind='fire', file=P, patch='bn44-05.diff', old='            Err(_) => i64::MAX,', new='            Err(_) => 0,', expect={'C05': 'CLAMP'}, control=False),
+ dict(id='exists-pop-loop-negates-the-accumulator', kind='fire', file=B, patch='bn44-01.diff', old='            quantified = self.exists_impl(&symbol, quantified);', new='            quantified = self.exists_impl(&symbol, self.not(quantified));', expect={'C04': 'violation'}, control=False),
+ dict(id='timed-closure-applies-model-inside', kind='fire', file=M, patch='bn42-05.diff', old='        let (bdd, elapsed) = timed(|| input_parsed.eval());', new='        let (bdd, elapsed) = timed(|| input_parsed.env.model(input_parsed.eval()));', expect={'C10': 'model'}, control=False),
+]
